@@ -254,6 +254,20 @@ let () =
             print_string (if known_C16_null_plain_string d then "\"known\":true," else "\"known\":false,");
             print_string (if known_C16_null_forbidden_field d then "\"known2\":true}" else "\"known2\":false}");
             print_char '\n'
+        | L [A "header"; A id; sd; rt; partial] ->
+            (* Spec/C13Doc.v: the names the header must declare, computed from the parsed document alone *)
+            let r = d_runtime rt in
+            print_string id; print_char '\t';
+            (match parse (d_document sd) with
+             | Err _ -> print_string "null"
+             | Ok d ->
+                 let l = if d_bool partial then doc_header_symbols_main d r
+                         else if d.doc_settings.single_segment_mode then doc_header_symbols_single d r
+                         else doc_header_symbols d r in
+                 print_string "[";
+                 print_string (Stdlib.String.concat "," (Stdlib.List.map (fun x -> ostr (jstr x)) l));
+                 print_string "]");
+            print_char '\n'
         | L [A "grammar"; A id; sd; rt; partial; L scripts] ->
             (* the extracted grammar reader of Spec/C19Grammar.v on script texts produced by the REAL tool:
                names_valid = the document-side hypothesis of C19_generated_lines, accepted = wf_lines of each text *)
